@@ -137,12 +137,15 @@ def ob_tg_crop(mode, rebase, timeout):
         tg = Textgrid(0.0, hi)
         tg.addTier(it)
         tg.addTier(pt)
+        tg.addTier(IntervalTier("empty", [], 0.0, hi))
         before = snap_tg(tg)
         r = tg.crop(a, b, mode, rebase)
         if snap_tg(tg) != before:
             return "receiver mutated"
-        if r.tierNames != ("i", "p"):
+        if r.tierNames != ("i", "p", "empty"):
             return "names/order"
+        if tuples(r.getTier("empty").entries) != []:
+            return "empty tier"
         ei, loi, hii = R.crop_interval_tier([(s0, e0, "x")], a, b, mode, rebase)
         ep, lop, hip = R.crop_point_tier([(t0, "q")], a, b, rebase)
         ri, rp = r.getTier("i"), r.getTier("p")
